@@ -231,6 +231,12 @@ def may_code_ids(mod) -> set:
             for impl in reg.values():
                 if inspect.isfunction(impl) and getattr(mod, impl.__name__, None) is not impl:
                     out.add(id(impl.__code__))
+    # functions kept only inside a module-level container (a callback table): nothing names them
+    for v in list(vars(mod).values()):
+        if isinstance(v, (dict, list, tuple)):
+            for f in (v.values() if isinstance(v, dict) else v):
+                if inspect.isfunction(f) and getattr(mod, f.__name__, None) is not f:
+                    out.add(id(f.__code__))
     # nested functions that ARE resolvable on the unchanged design: a self-recursive closure is named by its own frame
     must = set(getattr(P, "MUST_LOG_NESTED", []))
     if must:
